@@ -481,6 +481,15 @@ def corpus():
            con("i1", "b", S("x"), "setattr"), con("i2", "b", S("y"), "setattr")]
     for cut in (0, 5, len(ops)):
         out.append({"design": d, "style": "proc", "history": {"Top": {"pre": ops[:cut], "post": ops[cut:]}}})
+    # one NoConn object — named, and unnamed — on ports of several instances; one of the ports got there by way of a signal
+    for nm in ("open", None):
+        nc = {"k": "noconn", "id": 7, "name": nm}
+        insts = [{"n": f"i{k}", "of": E1, "conns": [["a", S("aa")], ["b", copy.deepcopy(nc)]]} for k in (1, 2, 3)]
+        d = {"bundles": [], "top": "Top", "modules": [{"name": "Top", "sigs": [sg("aa", 2), sg("x", 1)], "bundles": [], "insts": insts}]}
+        ops = [con("i1", "a", S("aa")), con("i2", "a", S("aa")), con("i3", "a", S("aa")), con("i1", "b", copy.deepcopy(nc)),
+               con("i2", "b", S("x"), "setattr"), con("i3", "b", copy.deepcopy(nc), "call"), con("i2", "b", copy.deepcopy(nc), "setattr")]
+        for cut in (0, 5, len(ops)):
+            out.append({"design": d, "style": "proc", "history": {"Top": {"pre": ops[:cut], "post": ops[cut:]}}})
     return out
 
 
